@@ -150,21 +150,31 @@ def check_bulk(items, flag_mode, order, style, ascii_, ingest, res):
                 v = ("bulk-fast:error-type", f"{st}")
             if v:
                 break
-        if v is None:
-            params = {"body": "\n".join(['{"index":{}}', '{"a":1}'] * n), "action-metadata-present": True}
-            dt = b.detailed_stats(params, full)
-            if dt["success"] != (failed == 0) or dt["error-count"] != failed or dt["success-count"] != n - failed:
-                v = ("bulk-detailed:counts", f"detailed path {dt['success']}/{dt['success-count']}/{dt['error-count']}, items failed {failed} of {n}")
-            elif sum(c["item-count"] for c in dt["ops"].values()) != n:
-                v = ("bulk-detailed:ops", f"{dt['ops']}")
-            elif ("ingest_took" in dt) != ingest or dt.get("took") != 30:
-                v = ("bulk-detailed:took", f"{dt}")
     except Exception as e:  # noqa
         v = ("bulk:raises-" + type(e).__name__, f"{type(e).__name__}: {e}")
+    # the detailed path is judged on its own (a finding on the fast path must not mask it)
+    v2 = None
+    try:
+        params = {"body": "\n".join(['{"index":{}}', '{"a":1}'] * n), "action-metadata-present": True}
+        dt = b.detailed_stats(params, full)
+        if dt["success"] != (failed == 0) or dt["error-count"] != failed or dt["success-count"] != n - failed:
+            v2 = ("bulk-detailed:counts", f"detailed path {dt['success']}/{dt['success-count']}/{dt['error-count']}, items failed {failed} of {n}")
+        elif sum(c["item-count"] for c in dt["ops"].values()) != n:
+            v2 = ("bulk-detailed:ops", f"{dt['ops']}")
+        elif ("ingest_took" in dt) != ingest or dt.get("took") != 30:
+            v2 = ("bulk-detailed:took", f"{dt}")
+    except Exception as e:  # noqa
+        v2 = ("bulk-detailed:raises-" + type(e).__name__, f"{type(e).__name__}: {e}")
+    if v2:
+        res.violation(
+            f"{v2[0]}:{'+'.join(feats) or 'plain'}",
+            f"{v2[1]}; response {text[:300]}",
+            {"kind": "bulk", "items": items, "flag_mode": flag_mode, "order": order, "style": style, "ascii": ascii_, "ingest": ingest},
+        )
     res.case(
         case_repr={"bulk_response": text[:400]} if res.sample_now(7919) else None,
         nontrivial_key=text if items else None,
-        outcome_key=("bulk", failed, n, v[0] if v else "ok"),
+        outcome_key=("bulk", failed, n, v[0] if v else "ok", v2[0] if v2 else "ok"),
     )
     if v:
         res.violation(
@@ -189,7 +199,7 @@ SORTS = [
     [9007199254740993, None],
     ["[", "}", ","],
 ]
-AFTER = [None, "matched_queries", "inner_hits", "late_source", "late_source_string"]
+AFTER = [None, "matched_queries", "inner_hits", "late_source", "late_source_string", "late_source_presort", "aggs_max_sort"]
 
 
 def hit(i, sort, after):
@@ -204,6 +214,11 @@ def hit(i, sort, after):
     elif after == "late_source":
         src = h.pop("_source")
         src["sort"] = "by-name"
+        h["_source"] = src
+    elif after == "late_source_presort":
+        # a key that merely ENDS in sort, after the sort key (not the token "sort")
+        src = h.pop("_source")
+        src["presort"] = [9, "x"]
         h["_source"] = src
     elif after == "late_source_string":
         src = h.pop("_source")
@@ -232,11 +247,16 @@ def search_docs(tier):
                             "hits": {"total": total, "max_score": None, "hits": hits},
                         }
                         feats = []
+                        if after == "aggs_max_sort":
+                            # Elasticsearch renders aggregations after the hits; one of them is called max_sort
+                            doc["aggregations"] = {"max_sort": {"value": 3.0}, "by_sort": {"buckets": [{"key": [7], "doc_count": 1}]}}
                         if sort is not None and any(isinstance(x, str) and "]" in x for x in sort):
                             feats.append("bracket-in-sort-value")
                         if sort is not None and any(isinstance(x, str) and '"sort"' in x for x in sort):
                             feats.append("sort-token-in-sort-value")
-                        if after:
+                        if after in ("late_source_presort", "aggs_max_sort"):
+                            feats.append("key-ending-in-sort-after-last-sort")
+                        elif after:
                             feats.append("sort-token-after-last-sort")
                         yield doc, feats
     # no sort at all / pit / scroll ids
